@@ -1255,7 +1255,7 @@ func (g *gen) famC08(id string, count int) []*Scenario {
 				pd.Fields = append([]*Field{}, d.Fields[:len(d.Fields)-8]...)
 				// (a struct without any marker generates nothing today; had it carried rules before, its stale validator
 				// file would stay — the generator never deletes files — so such structs get no rules in the history either)
-				marked := len(d.Markers) > 0 || anyMarked(d.Fields)
+				marked := declHasRule(d)
 				for k := 0; k < 8; k++ {
 					var ms []Marker
 					if !marked {
@@ -1484,6 +1484,23 @@ func anyMarked(fs []*Field) bool {
 	for _, f := range fs {
 		if len(f.Markers) > 0 || (f.Nested != nil && anyMarked(f.Nested)) {
 			return true
+		}
+	}
+	return false
+}
+
+// declHasRule: some marker of the declaration (struct level or field level) applies to the type of a leaf it reaches — only
+// then does the generator write a validator file for the struct
+func declHasRule(d *Decl) bool {
+	var leaves []leafRef
+	collectLeaves(d.Fields, nil, d.Markers, &leaves)
+	for _, l := range leaves {
+		for _, m := range l.ms {
+			for _, r := range rulesFor(l.t) {
+				if r == m.ID {
+					return true
+				}
+			}
 		}
 	}
 	return false
